@@ -279,10 +279,15 @@ func (db *DB) Session(config *Session) *DB {
 				PreparedStmtDB: preparedStmt,
 			}
 		default:
+			// Reset/Close reassign Stmts under the lock, read it under the lock as well
+			preparedStmt.Mux.RLock()
+			stmts := preparedStmt.Stmts
+			preparedStmt.Mux.RUnlock()
+
 			tx.Statement.ConnPool = &PreparedStmtDB{
 				ConnPool: db.Config.ConnPool,
 				Mux:      preparedStmt.Mux,
-				Stmts:    preparedStmt.Stmts,
+				Stmts:    stmts,
 			}
 		}
 		txConfig.ConnPool = tx.Statement.ConnPool
